@@ -1,6 +1,6 @@
 import AlphaG.Model.Deconv
 /-
-Line-protocol handlers for C17 (all floats travel as 16-digit lowercase hex bit patterns):
+Line-protocol handlers for C17 (all floats travel as 16-digit lowercase hex bit patterns, NaN as `nan`):
 
 * `deconv <fast|naive> <off> <la> <n> <signal bits…> <m> <response bits…>`
   → `ok <sum of squared residuals> <n input bits…>`
@@ -18,12 +18,14 @@ def hexNat? (s : String) : Option Nat :=
     | _, _ => none) (some 0)
 
 def floatOfHex? (s : String) : Option Float :=
+  if s == "nan" then some (0.0 / 0.0) else
   (hexNat? s).map fun n => Float.ofBits (UInt64.ofNat n)
 
 def hex16 (n : Nat) : String :=
   String.ofList ((List.range 16).map fun i => hexChar ((n / 16 ^ (15 - i)) % 16))
 
-def showFloat (x : Float) : String := hex16 x.toBits.toNat
+/-- NaN payloads are canonicalised (`nan`) on both sides of the comparison. -/
+def showFloat (x : Float) : String := if x.isNaN then "nan" else hex16 x.toBits.toNat
 
 def showFloats (l : List Float) : String := " ".intercalate (l.map showFloat)
 
